@@ -78,8 +78,24 @@ def worker(ctx):
             except Exception as e:
                 res.inconclusive.append(f"printing case {entry} failed: {type(e).__name__}: {e}")
                 continue
+            if inj is None or inj.accept:
+                # the same schema as a text editor may leave it: no documented constraint speaks about the file's last line or its line terminators
+                for fn in list(texts):
+                    v = rng.randrange(8)
+                    if v == 0:
+                        texts[fn] = texts[fn].rstrip("\n")
+                        res.count("layout:no_final_newline")
+                    elif v == 1:
+                        texts[fn] = texts[fn].rstrip("\n") + rng.choice([" // trailing", "\n// last line", "\n\n    // last line"])
+                        res.count("layout:comment_on_last_line_without_newline")
+                    elif v == 2:
+                        texts[fn] = texts[fn].replace("\n", "\r\n")
+                        res.count("layout:crlf")
+                    elif v == 3:
+                        texts[fn] = rng.choice(["\n\n", "// header comment\n", "   \n\t\n"]) + texts[fn]
+                        res.count("layout:lines_before_proto")
             for fn, t in texts.items():
-                with open(os.path.join(d, fn), "w") as fh:
+                with open(os.path.join(d, fn), "w", newline="") as fh:
                     fh.write(t)
             with open(os.path.join(d, "okimport.bitproto"), "w") as fh:
                 fh.write("proto okimport\nmessage OkImported { bool a = 1 }\n")
